@@ -19,7 +19,13 @@ package file
 // passphrase (it does when the passphrase is long enough), so nothing is said about freshness
 //@   assumes [legacy-kdf] val(key) == LegacyKey(val(passphrase), keyLen)
 //@   ensures [prefix-or-new] newly(key) || (key.arr == passphrase.arr && key.off == passphrase.off && keyLen <= len(passphrase))
+// the legacy format itself, byte by byte: key files written by the old code open only with exactly this key
+//@   ensures [legacy-format-prefix] forall k :: 0 <= k && k < keyLen && k < len(passphrase) ==> key[k] == old(passphrase[k])
+//@   ensures [legacy-format-stretch] len(passphrase) > 0 ==> forall k :: len(passphrase) <= k && k < keyLen ==> key[k] == xor(old(passphrase[k % len(passphrase)]), k % 256)
+//@   ensures [legacy-format-empty] len(passphrase) == 0 ==> forall k :: 0 <= k && k < keyLen ==> key[k] == 0
 //@   loop 1 invariant [idx] len(passphrase) <= i && len(key) == keyLen && i >= 0
+//@   loop 1 invariant [prefix-kept] newly(key) && forall k :: 0 <= k && k < len(passphrase) ==> key[k] == passphrase[k]
+//@   loop 1 invariant [stretched-so-far] forall k :: len(passphrase) <= k && k < i ==> key[k] == xor(passphrase[k % len(passphrase)], k % 256)
 
 //@ func deriveKeyArgon2(passphrase, salt, keyLen) (key)
 //@   property C19
